@@ -485,6 +485,7 @@ def run_cases(cases, impl_bin, kind_env=None, workers=16, timeout=20, model_work
             c.nreq = len(c.files)
             for name, content in c.files.items():
                 p = os.path.join(d, name)
+                os.makedirs(os.path.dirname(p), exist_ok=True)
                 if isinstance(content, Sparse):
                     with open(p, 'wb') as f:
                         f.truncate(content.sectors * 256)
